@@ -1,1 +1,136 @@
-From CMinx Require Import Base.Str.
+(* Properties/C16.v -- Settings layer as command line > -s file > user config > defaults.
+   Only theorem statements; proofs are in Proofs/ConfigFacts.v.  The option table (template), the
+   packaged defaults (yaml_defaults), the dataclass fields, the argparse table (cli_table) and the
+   stacking order come from Gen/ConfigData.v, which is regenerated from config.py,
+   config_default.yaml and __init__.py on every run: the theorems that mention them are re-checked
+   against the current source. confuse itself is validated against the model by the harness. *)
+From Coq Require Import String List.
+From CMinx Require Import Base.Str Model.Path Model.Config Gen.ConfigData Proofs.ConfigFacts.
+Import ListNotations.
+
+(* the value in effect is the one from the highest-priority source that sets the option *)
+Theorem C16_resolve_first_setting_source :
+  forall stack key v src,
+    resolve stack key = Some (v, src)
+    <-> exists pre post, stack = pre ++ src :: post /\ assoc key (src_vals src) = Some v
+                         /\ Forall (unset key) pre.
+Proof. exact resolve_first_setting_source. Qed.
+Print Assumptions C16_resolve_first_setting_source.
+
+Theorem C16_effective_highest_priority :
+  forall cwd rc pre src post key ty v,
+    Forall (unset key) pre -> assoc key (src_vals src) = Some v ->
+    effective cwd rc (pre ++ src :: post) key ty = convert cwd rc ty (Some (v, src)).
+Proof. exact effective_highest_priority. Qed.
+Print Assumptions C16_effective_highest_priority.
+
+Theorem C16_cli_wins :
+  forall cwd rc args sfile user defaults key ty v,
+    assoc key (src_vals args) = Some v ->
+    effective cwd rc [args; sfile; user; defaults] key ty = convert cwd rc ty (Some (v, args)).
+Proof. exact cli_wins. Qed.
+Print Assumptions C16_cli_wins.
+
+Theorem C16_sfile_wins_over_user :
+  forall cwd rc args sfile user defaults key ty v,
+    unset key args -> assoc key (src_vals sfile) = Some v ->
+    effective cwd rc [args; sfile; user; defaults] key ty = convert cwd rc ty (Some (v, sfile)).
+Proof. exact sfile_wins_over_user. Qed.
+Print Assumptions C16_sfile_wins_over_user.
+
+Theorem C16_user_wins_over_defaults :
+  forall cwd rc args sfile user defaults key ty v,
+    unset key args -> unset key sfile -> assoc key (src_vals user) = Some v ->
+    effective cwd rc [args; sfile; user; defaults] key ty = convert cwd rc ty (Some (v, user)).
+Proof. exact user_wins_over_defaults. Qed.
+Print Assumptions C16_user_wins_over_defaults.
+
+(* an option set nowhere takes the default of config_default.yaml *)
+Theorem C16_default_value_when_unset :
+  forall cwd rc args sfile user key ty v,
+    unset key args -> unset key sfile -> unset key user -> assoc key yaml_defaults = Some v ->
+    effective cwd rc [args; sfile; user; defaults_src] key ty
+    = convert cwd rc ty (Some (v, defaults_src)).
+Proof. exact default_value_when_unset. Qed.
+Print Assumptions C16_default_value_when_unset.
+
+(* main() stacks the -s file and then the arguments on top of user config and defaults *)
+Theorem C16_stacking_order : stacking_order = [SrcFile; SrcArgs].
+Proof. exact stacking_order_is_file_then_args. Qed.
+Print Assumptions C16_stacking_order.
+
+(* every option of the current template has a well-typed default in the current YAML (or may be absent) *)
+Theorem C16_defaults_complete_and_well_typed :
+  forall cwd k ty, In (k, ty) template -> exists v, effective cwd false [defaults_src] k ty = COk v.
+Proof. exact defaults_complete_and_well_typed. Qed.
+Print Assumptions C16_defaults_complete_and_well_typed.
+
+Theorem C16_dataclass_fields_match_template :
+  forall sec fields, In (sec, fields, true) dataclass_fields ->
+  forall k, In k (field_paths sec fields) <-> In k (section_keys sec).
+Proof. exact dataclass_fields_match_template. Qed.
+Print Assumptions C16_dataclass_fields_match_template.
+
+(* command-line flags set option paths of the template, and only the flags given *)
+Theorem C16_cli_dests_are_option_paths :
+  forall a, In a cli_table -> mem_str (a_dest a) non_option_dests = false ->
+    In (a_dest a) (map fst template).
+Proof. exact cli_dests_are_option_paths. Qed.
+Print Assumptions C16_cli_dests_are_option_paths.
+
+Theorem C16_absent_flag_sets_nothing : forallb a_default_none cli_table = true.
+Proof. exact absent_flag_sets_nothing. Qed.
+Print Assumptions C16_absent_flag_sets_nothing.
+
+Theorem C16_cli_source_only_given_flags :
+  forall toks p, parse_args cli_table toks = Some p ->
+  forall k v, In (k, v) (src_vals (args_source cli_table p)) ->
+  exists t a, In t toks /\ In a cli_table /\ mem_str t (a_flags a) = true /\ a_dest a = k.
+Proof. exact cli_source_only_given_flags. Qed.
+Print Assumptions C16_cli_source_only_given_flags.
+
+(* a value of the wrong type is rejected, not replaced by a lower source or the default *)
+Theorem C16_wrong_type_rejected :
+  forall cwd rc ty v src, yval_has_type ty v = false -> ty <> TOptSeq \/ is_ystr v = false ->
+    convert cwd rc ty (Some (v, src)) = CTypeError.
+Proof. exact wrong_type_rejected. Qed.
+Print Assumptions C16_wrong_type_rejected.
+
+Theorem C16_wrong_type_not_replaced :
+  forall cwd pre src post k ty v, In (k, ty) template -> Forall (unset k) pre ->
+    assoc k (src_vals src) = Some v -> yval_has_type ty v = false ->
+    ty <> TOptSeq \/ is_ystr v = false ->
+    settings_of cwd (pre ++ src :: post) template = None.
+Proof. exact wrong_type_not_replaced. Qed.
+Print Assumptions C16_wrong_type_not_replaced.
+
+(* known finding F15: a string given for exclude_filters is accepted (full statement refuted) *)
+Theorem C16_exclude_filters_string_is_accepted_refuted :
+  forall cwd rc, exists v src, yval_has_type TOptSeq v = false
+                               /\ convert cwd rc TOptSeq (Some (v, src)) <> CTypeError.
+Proof. exact C16_exclude_filters_string_refuted. Qed.
+Print Assumptions C16_exclude_filters_string_is_accepted_refuted.
+
+Theorem C16_well_typed_settings_accepted :
+  forall cwd upper, forallb (src_well_typed template) upper = true ->
+    settings_of cwd (upper ++ [defaults_src]) template <> None.
+Proof. exact settings_total_on_well_typed. Qed.
+Print Assumptions C16_well_typed_settings_accepted.
+
+(* exclude patterns: the union over all sources, highest priority first *)
+Theorem C16_exclude_is_union :
+  forall stack key, forallb (list_or_unset key) stack = true ->
+    all_contents stack key = Some (expected_union key stack).
+Proof. exact exclude_is_union. Qed.
+Print Assumptions C16_exclude_is_union.
+
+(* a relative output directory: against the cwd, or against the directory of the configuration
+   file that sets it when relative_to_config is true *)
+Theorem C16_output_dir_resolution :
+  forall cwd rc pre src post p, isabs cwd = true ->
+    Forall (unset (s"output.directory")) pre ->
+    assoc (s"output.directory") (src_vals src) = Some (YStr p) ->
+    effective cwd rc (pre ++ src :: post) (s"output.directory") TOptFilename
+    = COk (CStr (expected_output_dir cwd rc p src)).
+Proof. exact output_dir_resolution. Qed.
+Print Assumptions C16_output_dir_resolution.
